@@ -284,7 +284,10 @@ class EventBus:
     ):
         self.id = uuid7str()
         self.name = name or f'{self.__class__.__name__}_{self.id[-8:]}'
-        assert self.name.isidentifier(), f'EventBus name must be a unique identifier string, got: {self.name}'
+        # (same rule as PythonIdentifierStr, the type bus names are recorded under in event_path and EventResult.eventbus_name)
+        assert self.name.isidentifier() and not self.name.startswith('_'), (
+            f'EventBus name must be a unique identifier string not starting with an underscore, got: {self.name}'
+        )
 
         # Force garbage collection to clean up any dead EventBus instances in the WeakSet
         # gc.collect()  # Commented out - this is expensive and causes 5s delays when creating many EventBus instances
